@@ -128,8 +128,9 @@ def _fw_ref(sig, positive, thr, minw, maxw=None, delta=None):
 
 def _width(shard, ctx, col, np):
     from scared import signal_processing as sp
-    for sig in _signals(shard):
-        d = np.array(sig, dtype='float64')
+    dts = ('float64', 'uint8', 'int16', 'uint16', 'float32')
+    for si, sig in enumerate(_signals(shard)):
+        d = np.array(sig, dtype=dts[si % len(dts)])             # "all real arrays": the storage dtype cycles with the signal (ADC traces are unsigned integers)
         nontriv = len(set(sig)) > 1
         for direction in sp.Direction:
             pos = direction is sp.Direction.POSITIVE
@@ -140,7 +141,8 @@ def _width(shard, ctx, col, np):
                         try:
                             got = sp.find_width(d, direction, thr, minw, maxw, delta).tolist()
                         except Exception as e:
-                            col.violation('C19/find_width/raised', '%s: %s' % (type(e).__name__, e), {'signal': list(sig)}); continue
+                            col.violation('C19/find_width/raised/%s' % ('unsigned' if d.dtype.kind == 'u' else d.dtype.kind), 'find_width(%s as %s, %s, thr=%s): %s: %s' % (list(sig), d.dtype, direction.name, thr, type(e).__name__, e),
+                                          {'signal': list(sig), 'dtype': str(d.dtype), 'direction': direction.name, 'threshold': thr}); continue
                         col.evaluations += 1; col.states += 1; col.transitions += 1; col.nontrivial += 1 if nontriv else 0
                         exp = _fw_ref(sig, pos, thr, minw, maxw, delta)
                         if got != exp:
